@@ -4,7 +4,9 @@ CONSTANTS
   Vals = {7}
   Types = {"big", "small"}
   Variant = "intended"
-  Depth = 9
+  MaxDepth = 1
+  Throws = {FALSE, TRUE}
+  Depth = 7
 SPECIFICATION GSpec
 CONSTRAINT Emit
 CHECK_DEADLOCK FALSE
